@@ -10,7 +10,7 @@
    one node).  Theorems 8 and 9 cover only the position calculus of the box factory. *)
 From Coq Require Import QArith Qabs ZArith NArith List Bool Lqa.
 Import ListNotations.
-From V Require Import Model.Val Model.Geom Gen.GeomConsts Gen.GeomFns Proofs.GeomP Proofs.GeomTie.
+From V Require Import Model.Val Model.Geom Model.GeomEdge Gen.GeomConsts Gen.GeomFns Proofs.GeomP Proofs.GeomTie Proofs.GeomEdgeP.
 Open Scope Q_scope.
 
 (* ---- 0. Tie: line_intersect, Box.__vector_snap_manhattan and Box.__vector_snap_tree as translated from
@@ -152,6 +152,53 @@ Theorem layout_translation : forall tops d,
   Forall2 (Forall2 (shifted_by d)) (place_all tops) (place_all (map (shift_node d) tops)).
 Proof. exact translate_all_lemma. Qed.
 Print Assumptions layout_translation.
+
+(* ---- 10. Default routes (no stored bend points): route_manhattan and route_tree start on the outline of
+         the source box and end on the outline of the target box *)
+Theorem route_manhattan_on_outlines : forall src tgt,
+  0 <= bw src -> 0 <= bh src -> 0 <= bw tgt -> 0 <= bh tgt ->
+  exists l, route_manhattan src tgt = LOk l /\ on_outline src (origin l) /\ on_outline tgt (extremity l).
+Proof. exact route_manhattan_ends. Qed.
+Print Assumptions route_manhattan_on_outlines.
+
+Theorem route_tree_on_outlines : forall src tgt,
+  0 <= bw src -> 0 <= bh src -> 0 <= bw tgt -> 0 <= bh tgt ->
+  on_outline src (origin (route_tree src tgt)) /\ on_outline tgt (extremity (route_tree src tgt)).
+Proof. exact route_tree_ends. Qed.
+Print Assumptions route_tree_on_outlines.
+
+(* ---- 11. Edge-end snapping, Manhattan style (_edge_factories.snap_manhattan): never fails and the new
+         extremity of the edge is on the outline of the box *)
+Theorem edge_manhattan_end_on_outline : forall tgt pi pn,
+  0 <= bw tgt -> 0 <= bh tgt ->
+  exists l, edge_snap_manhattan tgt pi pn = LOk l /\ on_outline tgt (extremity l).
+Proof. exact edge_snap_manhattan_end. Qed.
+Print Assumptions edge_manhattan_end_on_outline.
+
+(* ---- 12. Edge-end snapping, tree style (_edge_factories.snap_tree): for a box that is not a port the end
+         becomes the snapped point on the top or bottom line; for a port only while the snap keeps the end's
+         x.  Otherwise the code makes (endpoint.x, y of the neighbour) the extremity — refuted below. *)
+Theorem edge_tree_end_on_side_nonport : forall tgt pi pn,
+  bport tgt = false -> veqb (vsub pi pn) (0, 0) = false ->
+  exists e, edge_snap_tree tgt pi pn = LOk [e] /\ on_tree_side tgt pi e.
+Proof. exact edge_snap_tree_nonport. Qed.
+Print Assumptions edge_tree_end_on_side_nonport.
+
+Theorem edge_tree_end_on_side_partial : forall tgt pi pn,
+  veqb (vsub pi pn) (0, 0) = false ->
+  exists e, vector_snap Tree tgt pi pn = Ok e /\ on_tree_side tgt pi e
+            /\ (isclose (fst e) (fst pi) = true -> edge_snap_tree tgt pi pn = LOk [e]).
+Proof. exact edge_snap_tree_partial. Qed.
+Print Assumptions edge_tree_end_on_side_partial.
+
+Theorem edge_tree_end_refuted : exists tgt pi pn l,
+  0 < bw tgt /\ 0 < bh tgt /\ veqb (vsub pi pn) (0, 0) = false /\ edge_snap_tree tgt pi pn = LOk l
+  /\ ~ (snd (extremity l) == by_ tgt \/ snd (extremity l) == by_ tgt + bh tgt).
+Proof.
+  exists (mkbox 100 100 10 10 true), (103, 100), (103, 50), [(100 + 10 * (1 # 2), 100); (100 + 10 * (1 # 2), 50)].
+  repeat split; try (cbn; lra).
+Qed.
+Print Assumptions edge_tree_end_refuted.
 
 (* ---- hypotheses are satisfiable / non-vacuity *)
 Example port_fits_default : port_fits MIN_SIZE PORT_SIZE.
